@@ -386,6 +386,16 @@ func checkCall(c callCase) (msg string, v string) {
 			if out.Err == nil || !strings.Contains(out.Err.Error(), fn.Name) {
 				return fmt.Sprintf("%s with %s returning an error: evaluation gave %s, want an error naming the function", text, sig, out), v
 			}
+			// the error aborts the whole evaluation wherever the call sits
+			for _, cx := range []string{"_ ?? 'dflt'", "_ || 1", "_ && 1", "[_]", "true ? _ : 0", "rec(1), _", "(_) + 1", "$v = _", "!!_", "typeof _", "null ?? _", "0 || _", "[1, _, 2]", "_ == null"} {
+				f2 := strings.ReplaceAll(cx, "_", text)
+				rec2 := &spec.Recorder{}
+				fn2 := c.Fn
+				o2 := evalWith(f2, c11Data(&fn2, rec2))
+				if o2.Panic != nil || o2.Err == nil || !strings.Contains(o2.Err.Error(), fn.Name) {
+					return fmt.Sprintf("%s with %s returning an error: evaluation gave %s, want an error naming the function (the returned error must abort the evaluation)", f2, sig, o2), v
+				}
+			}
 		} else if out.Err != nil {
 			return fmt.Sprintf("%s with %s failed after a correct invocation: %v", text, sig, out.Err), v
 		}
